@@ -121,7 +121,8 @@ def run(ctx):
     r2 = Rule("C07", "C07.R2", "emit => register for labels, hints, guidance and media (Question, group, repeat)", floor=300,
               necessary="a jr:itext reference whose id is not in the itext block is a dangling reference for every language")
     LABELS = {"absent": None, "empty": "", "text": "Name", "text+ref": "Hello ${q0}", "dict": {"en": "Name", "fr": "Nom"}}
-    MEDIA = {"absent": None, "empty": {}, "dict": {"image": "a.png"}, "localized": {"image": {"en": "a.png"}}}
+    MEDIA = {"absent": None, "empty": {}, "dict": {"image": "a.png"}, "localized": {"image": {"en": "a.png"}},
+             "unsupported kind": {"pdf": "a.pdf"}, "unsupported kind, localized": {"pdf": {"en": "a.pdf", "fr": "b.pdf"}}}
     HINTS = {"absent": None, "empty": "", "text": "A hint", "dict": {"en": "Hint"}}
     GUID = {"absent": None, "empty": "", "text": "Guide", "dict": {"en": "G"}}
     n_eval = 0
@@ -145,6 +146,9 @@ def run(ctx):
         try:
             ids, tr = registered(s, xp)
         except Raised as r:
+            if "PyXFormError" in r.mro:
+                r2.ok(f"Question[{desc}]", "rejected with PyXFormError by the registrars — no document", "pyxform/survey.py")
+                continue
             r2.fail(f"Question[{desc}]", f"registrars evaluate (raised {r.exc_name}{r.exc_args})", "pyxform/survey.py")
             continue
         r2.check(em <= ids, f"Question[{desc}]", f"every emitted itext id is registered", "pyxform/survey_element.py",
@@ -194,7 +198,11 @@ def run(ctx):
             if isinstance(ctrl, NodeVal):
                 own = [c for c in ctrl.children if isinstance(c, NodeVal) and c.tag == "label"]
             em = _emitted(own)
-            ids, tr = registered(s, xp)
+            try:
+                ids, tr = registered(s, xp)
+            except Raised as r:
+                r2.check("PyXFormError" in r.mro, f"{cname}[{desc}]", "rejected with PyXFormError by the registrars — no document", "pyxform/survey.py", why_fail=f"{r.exc_name}{r.exc_args}")
+                continue
             r2.check(em <= ids, f"{cname}[{desc}]", "every emitted itext id is registered", "pyxform/section.py", why_fail=f"emitted {sorted(em)} registered {sorted(ids)}")
     ctx.count("decision_table_evaluations", n_eval)
     # the ids are built from the element's path: an element NAME that contains one of the display-element words
@@ -551,7 +559,78 @@ def run(ctx):
                  why_fail="emits jr:itext via xml_label but is neither a Question nor a Section, and the collectors do not iterate into section items")
     rules.append(r6)
     rules.append(_tree_rule(ctx))
+    rules.append(_itemset_identity_rule(ctx))
     return rules
+
+
+def _itemset_identity_rule(ctx):
+    """The registrars (and the instance generator) reach choice lists through the survey's own table only; a choice list
+    object that exists anywhere else (a question-private copy) has its itext ids emitted by the question and its items
+    registered by nobody.  Who-may-construct: every construction of the choice-list class ends up in Survey.choices, and
+    every write of a question's `choices` slot stores a value it was handed (never one it built)."""
+    r = Rule("C07", "C07.R8", "choice lists exist only in the survey's table (the registrars' only source)", floor=3,
+             necessary="a question-private choice list emits jr:itext ids that _setup_translations, walking Survey.choices, never registers")
+    repo = ctx.repo
+    scls = repo.cls("pyxform.survey:Survey")
+    st = scls.methods["_setup_translations"]
+    # the registrar's source of choice lists: attribute reads of `.choices` inside _setup_translations are all on self
+    srcs = [n for n in ast.walk(st.node) if isinstance(n, ast.Attribute) and n.attr == "choices"]
+    r.check(bool(srcs) and all(isinstance(n.value, ast.Name) and n.value.id == "self" for n in srcs), "Survey._setup_translations", "choice texts are collected from the survey's own table (self.choices)", st.loc(),
+            why_fail="reads another `.choices`: " + ", ".join(norm(n) for n in srcs if not (isinstance(n.value, ast.Name) and n.value.id == "self")))
+    ctor_sites = []
+    for fi in repo.all_functions():
+        for c in walk_own(fi.node):
+            if isinstance(c, ast.Call) and call_name(c) == "Itemset" and isinstance(c.func, ast.Name):
+                ctor_sites.append((fi, c))
+    for fi, c in ctor_sites:
+        stmt = _stmt_of(fi.node, c)
+        ok = False
+        why = ""
+        tgt = None
+        if isinstance(stmt, ast.Assign | ast.AnnAssign):
+            tgts = stmt.targets if isinstance(stmt, ast.Assign) else [stmt.target]
+            tgt = tgts[0]
+            root = tgt
+            while isinstance(root, ast.Subscript):
+                root = root.value
+            if isinstance(root, ast.Attribute) and root.attr == "choices" and isinstance(root.value, ast.Name) and root.value.id == "self" and fi.cls is not None and any(k.name == "Survey" for k in ctx.interp("C07.R8").mro(fi.cls)):
+                ok = True
+            elif isinstance(root, ast.Name):
+                # a local table that is then stored in self.choices of the survey, or returned to a caller that stores it
+                nm = root.id
+                for n in ast.walk(fi.node):
+                    if isinstance(n, ast.Assign) and any(isinstance(t, ast.Attribute) and t.attr == "choices" and isinstance(t.value, ast.Name) and t.value.id == "self" for t in n.targets) and nm in {x.id for x in ast.walk(n.value) if isinstance(x, ast.Name)} and fi.cls is not None and fi.cls.name == "Survey":
+                        ok = True
+                    if isinstance(n, ast.Return) and n.value is not None and nm in {x.id for x in ast.walk(n.value) if isinstance(x, ast.Name)}:
+                        ok = _all_callers_store(ctx, fi)
+        elif isinstance(stmt, ast.Return):
+            ok = _all_callers_store(ctx, fi)
+        if not ok:
+            why = f"`{norm(stmt)[:120]}` in {fi.qualname} keeps the new choice list outside Survey.choices"
+        r.check(ok, f"Itemset(...) in {fi.qualname}", "the constructed choice list is stored in Survey.choices", fi.loc(c), why_fail=why)
+    r.check(bool(ctor_sites), "Itemset construction sites", "at least one construction site found", "pyxform/survey.py")
+    return r
+
+
+def _stmt_of(fn_node, node):
+    best = None
+    for s in ast.walk(fn_node):
+        if isinstance(s, ast.stmt) and s is not fn_node and any(x is node for x in ast.walk(s)):
+            if best is None or any(x is s for x in ast.walk(best)):
+                best = s
+    return best
+
+
+def _all_callers_store(ctx, fi):
+    found = False
+    for g in ctx.repo.all_functions():
+        for s in ast.walk(g.node):
+            if isinstance(s, ast.Call) and call_name(s) == fi.name:
+                st = _stmt_of(g.node, s)
+                if not (isinstance(st, ast.Assign) and any(isinstance(t, ast.Attribute) and t.attr == "choices" and isinstance(t.value, ast.Name) and t.value.id == "self" for t in st.targets) and g.cls is not None and g.cls.name == "Survey"):
+                    return False
+                found = True
+    return found
 
 
 ITEXT_TREES = {
